@@ -1,6 +1,7 @@
 /* C20 harness: gsm48_decode_mobile_alloc extracted textually from layer23 sysinfo.c (c20_fn.inc),
  * struct gsm_sysinfo_freq from the vendored libosmocore gsm48_ie.h, the FREQ_TYPE_* #defines and the
- * freq[] / hopping[] array bounds extracted textually from layer23 sysinfo.h (c20_defs.inc).
+ * freq[] / hopping[] array bounds extracted textually from layer23 sysinfo.h, the bound of the function's local
+ * array f extracted textually from its declaration (C20_F_BOUND; 0 if it is not a constant, i.e. a VLA) (c20_defs.inc).
  * Built with ASan + UBSan (vla-bound ON).  Every case runs in a forked child, so a sanitizer abort is
  * attributed to exactly one input line; the parent classifies the report.
  *
@@ -19,10 +20,9 @@
 
 #include "c20_defs.inc"
 
-#define LOGP(ss, level, fmt, args...) do { } while (0)
-#ifndef DRR
-#define DRR 0
-#endif
+/* LOGP evaluates its arguments (as the real macro does when the level is enabled), e.g. the read of f[i] in loop 3 */
+static void __attribute__((noinline)) c20_log(const char *fmt, ...) { (void)fmt; }
+#define LOGP(ss, level, fmt, args...) c20_log(fmt, ## args)
 
 #include "c20_fn.inc"
 
@@ -84,8 +84,8 @@ int main(int argc, char **argv)
 {
 	static char line[1 << 16];
 	if (argc > 1 && !strcmp(argv[1], "const")) {
-		printf("%d %d %d %d %d %d\n", (int)FREQ_TYPE_SERV, (int)FREQ_TYPE_HOPP, (int)C20_FREQ_SIZE, (int)C20_HOPPING_SIZE,
-		       (int)EINVAL, (int)sizeof(struct gsm_sysinfo_freq));
+		printf("%d %d %d %d %d %d %d\n", (int)FREQ_TYPE_SERV, (int)FREQ_TYPE_HOPP, (int)C20_FREQ_SIZE, (int)C20_HOPPING_SIZE,
+		       (int)EINVAL, (int)sizeof(struct gsm_sysinfo_freq), (int)(C20_F_BOUND));
 		return 0;
 	}
 	long caseno = 0;
